@@ -90,6 +90,12 @@ def run(ctx):
         raise AnalysisError('decodes of the sample-interval field (28:32): fewer than the 2 confirmed sites')
     check_pairing(ctx, 'C03.6')
     check_version(ctx, 'C03.7')
+    ctx.rule('C03.11', 'reader wiring: size slots reach the attributes of their role; footer array j is looked up at '
+             '512*(header blocks + data blocks) + j*stride; data section starts after the header blocks')
+    from .. import wiring as WR
+    roles = WR.footer_location(ctx, ht, 'C03.11')
+    WR.size_attr_uses(ctx, ht, 'C03.11', roles)
+    ctx.floor('C03.11', 7, 'wiring facts')
     ctx.floor('C03.1', 60, 'slot ranges')
     ctx.floor('C03.2', 50, 'slot codecs')
     ctx.floor('C03.3', 25, 'slot roles')
